@@ -684,15 +684,20 @@ static int cmd_check(Property &P, bool thorough, int jobs, long runs_override, d
     int x = report_violation(P, sv.first, plan, sv.second, known, known_printed, reported_fine, n_viol);
     rc = std::max(rc, x);
   }
+  // dead runs: one group per signature, and within a signature the runs whose plan lacks the trigger of every listed finding
+  // (they cannot be one) are examined before, and separately from, those that carry it
+  for (int pass = 0; pass < 2; pass++)
   for (size_t i = 0; i < B.crashed_seeds.size(); i++) {
-    std::string key = "crash/" + B.crash_sigs[i];
+    J plan = P.gen(B.crashed_seeds[i], thorough);
+    RunResult r; r.violation = true; r.oracle = "crash"; r.signature = B.crash_sigs[i];
+    if (P.plan_features) r.features = P.plan_features(plan);
+    bool could_be_known = match_known(known, r) != nullptr;
+    if (could_be_known != (pass == 1)) continue;
+    std::string key = "crash/" + B.crash_sigs[i] + (could_be_known ? "|carries the trigger of a listed finding" : "");
     if (seen.count(key)) continue;
     seen.insert(key);
     if (groups >= (size_t)(thorough ? 30 : 14)) { skipped_groups++; continue; }
     groups++;
-    J plan = P.gen(B.crashed_seeds[i], thorough);
-    RunResult r; r.violation = true; r.oracle = "crash"; r.signature = B.crash_sigs[i];
-    if (P.plan_features) r.features = P.plan_features(plan);
     int x = report_violation(P, B.crashed_seeds[i], plan, r, known, known_printed, reported_fine, n_viol);
     rc = std::max(rc, x);
   }
